@@ -149,11 +149,17 @@ class TemplateLoader:
                 else:
                     raise ValueError("Template not found: %s." % spec)
 
+        kwargs = self.kwargs
+        if self.default_extension is not None:
+            # The template's own loader (for ``load:``) adds the
+            # extension to names without a dot, too.
+            kwargs = dict(kwargs, default_extension=self.default_extension)
+
         return cls(
             spec,
             search_path=self.search_path,
             package_name=package_name,
-            **self.kwargs
+            **kwargs
         )
 
     def bind(
